@@ -364,6 +364,9 @@ func (s *Shard) SearchPoints(searchRequest models.SearchRequest) ([]models.Searc
 				return fmt.Errorf("could not get point by node id %d: %w", r.NodeId, err)
 			}
 			r.Point = sp.Point
+			// The data belongs to the storage transaction, what we return has
+			// to outlive it
+			r.Point.Data = bytes.Clone(sp.Point.Data)
 			rSet.Remove(r.NodeId)
 			finalResults = append(finalResults, r)
 		}
@@ -375,6 +378,7 @@ func (s *Shard) SearchPoints(searchRequest models.SearchRequest) ([]models.Searc
 			if err != nil {
 				return fmt.Errorf("could not get point by node id %d: %w", nodeId, err)
 			}
+			sp.Point.Data = bytes.Clone(sp.Point.Data)
 			finalResults = append(finalResults, models.SearchResult{NodeId: nodeId, Point: sp.Point})
 		}
 		// ---------------------------
